@@ -203,7 +203,8 @@ def get_total_blocks(input_file_stem):
     num_blocks : int
         Number of data blocks
     """
-    filenames = sorted(glob.glob(f'{input_file_stem}.????.raw'))
+    # The stem is a literal name, not a pattern (it may contain '[', '?' or '*')
+    filenames = sorted(glob.glob(f'{glob.escape(str(input_file_stem))}.????.raw'))
     blocks_per_file = get_blocks_per_file(input_file_stem)
     if len(filenames) == 1:
         return blocks_per_file
